@@ -154,8 +154,10 @@ def explore(prefix, depth):
 # clocks follow L, F and G.  "The time of the last step of the interpreter it follows" is kept by
 # the reference as one number per interpreter: the value its own clock showed when its latest
 # execute_once call started.
+# ('reclock', X): the clock object of X is replaced by an equivalent new one (same source of time); the time of the
+# last step of X is a fact about X's past and does not change
 SYNC_OPS = [('adv', 1), ('adv', 2), ('step', 'L'), ('step', 'F'), ('step', 'G'), ('qstep', 'L'),
-            ('qstep', 'F'), ('qstep', 'G')]
+            ('qstep', 'F'), ('qstep', 'G'), ('reclock', 'L'), ('reclock', 'F')]
 SYNC_DEPTH = {'quick': 8, 'thorough': 11}
 
 _SYNC_CHART = None
@@ -217,6 +219,13 @@ class SyncSystem:
         if op[0] == 'adv':
             self.ref['base'] += op[1]
             self.base.time = self.ref['base']
+        elif op[0] == 'reclock':
+            if op[1] == 'L':
+                self.base = SimulatedClock()
+                self.base.time = self.ref['base']
+                self.L.clock = self.base
+            else:
+                self.F.clock = SynchronizedClock(self.L)
         else:
             who = op[1]
             it = getattr(self, who)
